@@ -107,10 +107,11 @@ pub fn c19_map<const N: usize, const W: u8>() {
     vf::check(i == n, 202);
     let which = W; // one rendering per obligation (const parameter): keeps each query small
     let (mut buf, mut exp) = (Buf::new(), Buf::new());
-    let r = match which { 0 => write!(buf, "{}", m), 1 => write!(buf, "{:?}", m), _ => write!(buf, "{:#?}", m) };
+    // 3: Display under the alternate flag -- the container-level layout of Display does not depend on formatter flags
+    let r = match which { 0 => write!(buf, "{}", m), 1 => write!(buf, "{:?}", m), 3 => write!(buf, "{:#}", m), _ => write!(buf, "{:#?}", m) };
     vf::check(r.is_ok(), 1903);
     match which {
-        0 => { vf::reach(1); exp_pairs(&mut exp, &dseq[..n], b'{', b'}', false, false) }
+        0 | 3 => { vf::reach(1); exp_pairs(&mut exp, &dseq[..n], b'{', b'}', false, false) }
         1 => { vf::reach(1); exp_pairs(&mut exp, &gseq[..n], b'{', b'}', false, false) }
         _ => { vf::reach(1); exp_pairs(&mut exp, &gseq[..n], b'{', b'}', true, false) }
     }
@@ -131,10 +132,10 @@ pub fn c19_set<const N: usize, const W: u8>() {
     vf::check(i == n, 202);
     let which = W; // one rendering per obligation (const parameter): keeps each query small
     let (mut buf, mut exp) = (Buf::new(), Buf::new());
-    let r = match which { 0 => write!(buf, "{}", s), 1 => write!(buf, "{:?}", s), _ => write!(buf, "{:#?}", s) };
+    let r = match which { 0 => write!(buf, "{}", s), 1 => write!(buf, "{:?}", s), 3 => write!(buf, "{:#}", s), _ => write!(buf, "{:#?}", s) };
     vf::check(r.is_ok(), 1903);
     match which {
-        0 => { vf::reach(1); exp_items(&mut exp, &dseq[..n], b'{', b'}', false) }
+        0 | 3 => { vf::reach(1); exp_items(&mut exp, &dseq[..n], b'{', b'}', false) }
         1 => { vf::reach(1); exp_items(&mut exp, &gseq[..n], b'{', b'}', false) }
         _ => { vf::reach(1); exp_items(&mut exp, &gseq[..n], b'{', b'}', true) }
     }
@@ -222,13 +223,13 @@ pub fn c06_fmt_specs<const N: usize, const W: u8>() {
 
 harnesses! {
     c06_fmt_specs: [1, 0] [1, 1] [1, 2] [1, 3] [1, 4];
-    c19_map: [0, 0] [0, 1] [0, 2] [1, 0] [1, 1] [1, 2] [2, 0] [2, 1] [2, 2];
-    c19_set: [0, 0] [0, 1] [0, 2] [1, 0] [1, 1] [1, 2] [2, 0] [2, 1] [2, 2];
+    c19_map: [0, 0] [0, 1] [0, 2] [1, 0] [1, 1] [1, 2] [2, 0] [2, 1] [2, 2] [1, 3] [2, 3];
+    c19_set: [0, 0] [0, 1] [0, 2] [1, 0] [1, 1] [1, 2] [2, 0] [2, 1] [2, 2] [1, 3] [2, 3];
     c19_map_iters: [1, 0] [1, 1] [1, 2] [1, 3] [1, 4] [1, 5] [1, 6] [1, 7] [1, 8] [2, 0] [2, 1] [2, 2] [2, 3] [2, 4] [2, 5] [2, 6] [2, 7] [2, 8];
     c19_set_iters: [1, 1, 0] [1, 1, 1] [1, 1, 2];
     @deep
-    c19_map: [3, 0] [3, 1] [3, 2];
-    c19_set: [3, 0] [3, 1] [3, 2];
+    c19_map: [3, 0] [3, 1] [3, 2] [3, 3];
+    c19_set: [3, 0] [3, 1] [3, 2] [3, 3];
     c19_map_iters: [3, 0] [3, 1] [3, 2] [3, 3] [3, 4] [3, 5] [3, 6] [3, 7] [3, 8];
     c19_set_iters: [1, 1, 3] [2, 1, 0] [2, 1, 1] [2, 1, 2] [2, 1, 3] [2, 2, 0] [2, 2, 1] [2, 2, 2] [2, 2, 3];
 }
